@@ -31,9 +31,103 @@ def models(tier):
     return out
 
 
+# ------------------------------------------------------------------ E4: an application thread answering vs the node's I/O loop
+SCHED_VARIANTS = ("answer-vs-next-request", "answer-vs-timer-wakeup", "two-answers")
+
+
+def sched_execute(variant, prefix):
+    """A held request is answered from an application thread while the node's I/O thread has work in the same instant
+    (another request arriving, or its periodic wake-up); afterwards the peer repeats the answered request with the T flag.
+    Every interleaving (bounded) at line granularity in send_answer / route_answer / send_message / _record_answer and the
+    I/O loop."""
+    import functools
+    from .. import scenario, scheddfs, simkernel as sk
+    import diameter.node.node as nn
+    import diameter.node.application as aa
+    sk.install()
+    pts = {}
+    for cls, names in ((nn.Node, ("route_answer", "send_message", "_record_answer", "_handle_connections", "_receive_app_request", "_receive_message")),
+                       (aa.Application, ("send_answer",))):
+        for name in names:
+            if hasattr(cls, name):
+                pts[sk.code_of(cls, name)] = None
+    sk.set_line_points(pts)
+    ch = scheddfs.Chooser(prefix)
+    cfg = copy.deepcopy(BASE)
+    if variant == "two-answers":
+        # two answers submitted concurrently have no defined order, so the window must not be so small that the order in
+        # which the node happened to note them decides which one is evicted by the rejection of the first repeat
+        cfg["node"]["retransmit_queue_size"] = 3
+    sc = scenario.Scenario(cfg, chooser=ch, max_socks=1)
+    try:
+        nw = sc.start()
+        mons = [m(sc) for m in MONS]
+        vs = []
+
+        def step(ev):
+            ok = sc.apply(ev)
+            for m in mons:
+                vs.extend(m.step())
+            return ok
+        for ev in PRE + [("m", 0, "rt:a:0:1")] + ([("m", 0, "rt:a:0:2")] if variant == "two-answers" else []):
+            step(ev)
+        if len(nw.requests) < 1:
+            raise sk.HarnessError("set-up: the request did not reach the application")
+        s = sc.socks[0]
+
+        def answer(j):
+            app, msg = nw.requests[j]
+            app.send_answer(app.generate_answer(msg, result_code=2001))
+        if variant == "answer-vs-next-request":
+            nw.deliver(s.fs, sc.message(s, "rt:a:0:2"), run=False)
+        elif variant == "answer-vs-timer-wakeup":
+            nw.world.jump(5)
+        nw.world.points_on = True
+        ch.window = True
+        sk.spawn(functools.partial(answer, 0), "answerer0")
+        if variant == "two-answers":
+            sk.spawn(functools.partial(answer, 1), "answerer1")
+        nw.run()
+        ch.window = False
+        nw.world.points_on = False
+        sc.sync()
+        for m in mons:
+            vs.extend(m.step())
+        step(("m", 0, "rt:a:1:1"))          # the T-flagged repeat of the answered request
+        if variant == "two-answers":
+            step(("m", 0, "rt:a:1:2"))
+        step(("m", 0, "rt:a:1:3"))          # a T-flagged request never seen before
+        obs = (variant, tuple(sorted(set(k for k, d in vs))), tuple((f.h.e2e, f.result_code) for f in s.out if not f.h.is_request and f.h.code != 257),
+               len(nw.requests), tuple(nw.thread_failures()))
+        return (obs, tuple(vs)), ch
+    finally:
+        sc.close()
+
+
+def sched_check(obs_vs):
+    obs, vs = obs_vs
+    out = [(k + ":under-some-schedule", d) for k, d in vs]
+    variant, keys, answers, nreq, fails = obs
+    if fails:
+        out.append(("retransmit:thread-died:under-some-schedule", f"{fails}"))
+    return out
+
+
 def run(tier):
     rep = Report("C17", tier, "model_checking")
     common.pool()
+    import functools
+    from .. import scheddfs
+    bound = 2 if tier == "thorough" else 1
+    sched = 0
+    tasks = [(functools.partial(sched_execute, v), sched_check, bound) for v in SCHED_VARIANTS]
+    for v, r in zip(SCHED_VARIANTS, scheddfs.explore_many(tasks)):
+        sched += r["executions"]
+        for (key, detail), choices in r["violations"]:
+            rep.add(Violation(key, f"[{v}, bound {bound}] choices {choices}: {detail}", {"sched": v, "choices": choices}))
+        rep.sample({"schedule_exploration": f"{v}: application thread(s) in send_answer vs the I/O loop, line granularity", "preemption_bound": bound,
+                    "executions": r["executions"], "distinct_outcomes": len(r["outcomes"]), "branching_points": r["max_points"]})
+    rep.cov["schedules"] = sched
     depth = 7 if tier == "thorough" else 5
     tot = monitors.run_models(rep, models(tier), depth, dedup_depth_plain=depth - 2, time_cap=1200 if tier == "thorough" else 100)
     rep.cov.update({"states": tot["states"], "transitions": tot["transitions"], "traces_validated_against_impl": tot["transitions"] + tot["plain_transitions"],
@@ -46,6 +140,11 @@ def run(tier):
 
 
 def replay(case):
+    if "sched" in case:
+        import functools
+        from .. import scheddfs
+        obs_vs, ch = scheddfs.replay_choices(functools.partial(sched_execute, case["sched"]), case["choices"])
+        return [Violation(k, d) for k, d in sched_check(obs_vs)]
     hist = tuple(tuple(e) for e in case["history"])
     for m in models("thorough"):
         if m.name == case["model"]:
